@@ -24,7 +24,7 @@ from hypothesis import strategies as st
 from hypothesis.extra import numpy as hnp
 from hypothesis.stateful import initialize, invariant, precondition, rule
 
-from ..gen import cell_st, fl, frac_config_st, ppp_st, snapshot_from, snapshots_from, types_st
+from ..gen import cell_st, fl, frac_config_st, ppp_st, snapshot_from, types_st
 from ..harness import Facet, RecordingMachine, Violation
 from ..ref import neigh
 from ..util import arr, close, equal, require
@@ -35,7 +35,7 @@ from PyMatterSim.reader.reader_utils import Snapshots
 
 RULE = ("writers: generated configurations (gas / lattice with and without jitter / clusters; 2D,3D; orthogonal and "
         "LAMMPS-triclinic cells; all periodicity masks; positions also outside the box; N 3..40, plus seeded gases of "
-        "150..400 particles for the partition index; 1..4 frames) x "
+        "150..400 particles for the partition index; 1..4 frames, also sheared: per-frame tilt factors) x "
         "{N_nn 1..N-1 | global r_cut in a gap of the reference distances | K x K type-pair matrix, not symmetric}; "
         "crisp: integer coordinates, power-of-two cells, integer cut-offs with planted Pythagorean pairs exactly at, "
         "just inside and just outside the cut-off. reader: histories of read / reopen / read-rest over 1-2 open "
@@ -58,12 +58,13 @@ MANIFEST = {
              "and compared with a brute-force minimum-image reference: one header per frame, every id once, cn = "
              "length, 1-based ids, never the particle itself, exactly the N closest / exactly the pairs within the "
              "(type-pair) cut-off, non-decreasing distance order, symmetry of the global cut-off relation "
-             "(facets nnearest, nnearest_large, cutoff, cutoff_type); boundary-inclusive cut-offs and exact distance ties on integer "
+             "(facets nnearest, nnearest_large, cutoff, cutoff_type, and sheared = per-frame cell matrix); boundary-inclusive cut-offs and exact distance ties on integer "
              "constructions such as a 3-4-5 pair at r_cut = 5.0 (facet crisp); every written file is read back "
              "frame by frame. read_neighbors is checked as a rule-based state machine against a frame-pointer "
              "model: any Nmax per read (truncation, padding, width 1+min(max cn,Nmax)), id-indexed rows in shuffled "
              "order, cn = 0 rows, weight-type headers with verbatim floats, two files read interleaved, reopen, "
-             "remaining text after k reads (facet reader_machine)."),
+             "a neighbour and a weight file of the same shape read alternately with handles opened in either order, "
+             "all-empty frames (width 1), remaining text after k reads (facet reader_machine)."),
     "note": ("Trusted base: own parser/encoder and numpy reference in pbt/ref/neigh.py; C02 contract for the "
              "minimum image. Ambiguity rule 1e-9*scale at every discrete decision; exact arithmetic in the crisp "
              "facet. Not covered: behaviour at EOF, malformed files, coincident particles, N_nn >= N."),
@@ -77,9 +78,21 @@ HEADER = ["id", "cn", "neighborlist"]
 # ============================================================================= shared oracle pieces
 
 
+def frame_cells(case):
+    """Per-frame cell dicts: case["cells"] for sheared trajectories (same edge lengths, per-frame tilt factors), else
+    the one cell for every frame."""
+    return case["cells"] if case.get("cells") else [case["cell"]] * len(case["pos"])
+
+
+def make_snapshots(case):
+    snaps = [snapshot_from(c, p, case["types"], ts)
+             for c, p, ts in zip(frame_cells(case), case["pos"], case["timesteps"])]
+    return Snapshots(nsnapshots=len(snaps), snapshots=snaps)
+
+
 def _tol(case):
-    H = np.asarray(case["cell"]["H"], dtype=float)
-    m = max([1.0, float(np.abs(H).max())] + [float(np.abs(p).max()) for p in case["pos"]])
+    m = max([1.0] + [float(np.abs(np.asarray(c["H"], dtype=float)).max()) for c in frame_cells(case)]
+            + [float(np.abs(p).max()) for p in case["pos"]])
     return 1e-9 * m
 
 
@@ -173,11 +186,11 @@ def ufrac_st(N, d):
 
 
 @st.composite
-def conf_st(draw, nmax=40, frames=(1, 4), K=None, kmax=3, lmin=1.0, lmax=30.0):
+def conf_st(draw, nmax=40, frames=(1, 4), K=None, kmax=3, lmin=1.0, lmax=30.0, sheared=None):
     """Like gen.config_st (same case layout), but every kind is free of coincident particles by construction and the
     later frames are either fresh gases or small displacements of frame 0."""
     d = draw(st.sampled_from([2, 3]))
-    cell = draw(cell_st(d, "any", lmin=lmin, lmax=lmax))
+    cell = draw(cell_st(d, "tri" if sheared else "any", lmin=lmin, lmax=lmax))
     K_ = K if K is not None else draw(st.integers(1, kmax))
     kind = draw(st.sampled_from(["gas", "gas", "lattice", "cluster"]))
     if kind == "lattice":
@@ -205,27 +218,49 @@ def conf_st(draw, nmax=40, frames=(1, 4), K=None, kmax=3, lmin=1.0, lmax=30.0):
     offs = np.zeros((N, d))
     if draw(st.booleans()):
         offs = draw(hnp.arrays(np.int64, (N, d), elements=st.integers(-1, 1))).astype(float) * ppp
-    pos = [cell["lo"] + (f + offs) @ cell["H"] for f in fr]
+    cells = None
+    if cell["kind"] == "tri" and T >= 2 and (sheared or (sheared is None and draw(st.integers(0, 3)) == 0)):
+        # sheared trajectory: same edge lengths and origin, every later frame its own tilt factors
+        L = np.diag(cell["H"])
+        tl = st.one_of(st.integers(-50, 50).map(lambda k: k / 100.0), fl(-0.5, 0.5))
+        cells = [cell]
+        for _ in range(T - 1):
+            Hk = np.diag(L).astype(float)
+            Hk[1, 0] = draw(tl) * L[0]
+            if d == 3:
+                Hk[2, 0] = draw(tl) * L[0]
+                Hk[2, 1] = draw(tl) * L[1]
+            cells.append(dict(cell, H=Hk))
+        if all(np.allclose(c["H"], cell["H"], rtol=0, atol=1e-3 * L.min()) for c in cells):
+            Hk = cells[-1]["H"].copy()  # make the shear real: xy moved by 0.3 lx, folded back into [-lx/2, lx/2)
+            Hk[1, 0] = ((cell["H"][1, 0] / L[0] + 0.3 + 0.5) % 1.0 - 0.5) * L[0]
+            cells[-1] = dict(cell, H=Hk)
+    Hs = [c["H"] for c in cells] if cells else [cell["H"]] * T
+    pos = [cell["lo"] + (f + offs) @ Hk for f, Hk in zip(fr, Hs)]
     types = draw(types_st(N, K_))
     t0 = draw(st.integers(0, 10 ** 6))
     dt = draw(st.integers(1, 5000))
-    return {"d": d, "cell": cell, "pos": pos, "types": types, "ppp": ppp, "K": K_, "kind": kind,
-            "timesteps": [t0 + k * dt for k in range(T)], "outside": bool(np.any(offs))}
+    out = {"d": d, "cell": cell, "pos": pos, "types": types, "ppp": ppp, "K": K_, "kind": kind,
+           "timesteps": [t0 + k * dt for k in range(T)], "outside": bool(np.any(offs))}
+    if cells:
+        out["cells"] = cells
+    return out
 
 
 @st.composite
-def writer_case_st(draw, kind, nmax=40, frames=(1, 4)):
+def writer_case_st(draw, kind, nmax=40, frames=(1, 4), sheared=None):
+    if kind == "any":
+        kind = draw(st.sampled_from(["nn", "cut", "type"]))
     K = None if kind == "type" else 1
     # cut-off kinds: aspect ratio <= 5, otherwise half the shortest edge leaves nearly every list empty
     lm = (1.0, 30.0) if kind == "nn" or draw(st.integers(0, 3)) == 0 else (3.0, 15.0)
-    c = draw(conf_st(nmax=nmax, K=K, kmax=3, frames=frames, lmin=lm[0], lmax=lm[1]))
-    H = c["cell"]["H"]
+    c = draw(conf_st(nmax=nmax, K=K, kmax=3, frames=frames, lmin=lm[0], lmax=lm[1], sheared=sheared))
     tol = _tol(c)
     N = len(c["types"])
     dmax = 0.0
     mats = []
-    for p in c["pos"]:
-        dlo, dhi, _ = neigh.distance_intervals(p, H, c["ppp"])
+    for p, ck in zip(c["pos"], frame_cells(c)):
+        dlo, dhi, _ = neigh.distance_intervals(p, ck["H"], c["ppp"])
         off = ~np.eye(N, dtype=bool)
         assume(dlo[off].min() > 100 * tol)  # no coincident particles
         dmax = max(dmax, float(dhi.max()))
@@ -237,7 +272,11 @@ def writer_case_st(draw, kind, nmax=40, frames=(1, 4)):
     rmax = _rmax(c, dmax)
     gaps = neigh.gap_points(mats, rmax, tol)
 
+    all_empty = bool(gaps) and gaps[0][0] == 0.0 and draw(st.integers(0, 11)) == 0  # below the smallest distance
+
     def one_cut():
+        if all_empty:
+            return gaps[0][0] + draw(st.sampled_from([0.25, 0.5, 0.75])) * (gaps[0][1] - gaps[0][0])
         if not gaps or draw(st.integers(0, 7)) == 0:
             return draw(fl(rmax * 1e-3, rmax))  # anywhere: ambiguity rule decides
         # two draws, keep the larger index: longer lists are the interesting ones
@@ -279,10 +318,10 @@ def large_nn_st(draw):
 
 def check_writer(case):
     kind = case["w"]
-    snaps = snapshots_from(case)
+    snaps = make_snapshots(case)
     N = len(case["types"])
     T = len(case["pos"])
-    H = np.asarray(case["cell"]["H"], dtype=float)
+    cells = frame_cells(case)
     types = np.asarray(case["types"], dtype=int)
     tol = _tol(case)
     call_writer(case, snaps)
@@ -292,7 +331,7 @@ def check_writer(case):
     multi = False
     excluded = False
     for k in range(T):
-        dlo, dhi, tie = neigh.distance_intervals(case["pos"][k], H, case["ppp"])
+        dlo, dhi, tie = neigh.distance_intervals(case["pos"][k], np.asarray(cells[k]["H"], dtype=float), case["ppp"])
         n_tie += int(tie.sum())
         L = lists[k]
         listed = np.zeros((N, N), dtype=bool)
@@ -349,13 +388,16 @@ def check_writer(case):
             "N<=8" if N <= 8 else ("N<=20" if N <= 20 else ("N<=40" if N <= 40 else "N>=150")),
             "outside" if case["outside"] else "inside",
             "ambiguous" if n_amb else "no-ambiguous", "tie-pairs" if n_tie else "no-tie-pairs",
-            "default-args" if uses_defaults(case) else "explicit-args"]
+            "default-args" if uses_defaults(case) else "explicit-args",
+            "sheared" if case.get("cells") else "fixed-cell", "w-" + kind]
     if kind == "nn":
         nnn = int(case["nnn"])
         tags.append("Nnn=N-1" if nnn == N - 1 else ("Nnn=1" if nnn == 1 else "Nnn-mid"))
     else:
         tags.append("cn-varies" if cn_varies else "cn-uniform")
         tags.append("some-cn0" if any(len(x) == 0 for L in lists for x in L) else "all-cn>0")
+        if any(all(len(x) == 0 for x in L) for L in lists):
+            tags.append("frame-all-empty")
         tags.append("some-excluded" if excluded else "all-pairs-listed")
         if kind == "type":
             M = np.asarray(case["rcm"])
@@ -369,6 +411,8 @@ def describe_writer(case):
     out = {"w": case["w"], "d": case["d"], "cell": case["cell"]["kind"], "H": np.round(case["cell"]["H"], 4).tolist(),
            "ppp": np.asarray(case["ppp"]).tolist(), "N": len(case["types"]), "frames": len(case["pos"]),
            "kind": case["kind"], "pos0": np.round(case["pos"][0][:3], 4).tolist()}
+    if case.get("cells"):
+        out["H_per_frame"] = [np.round(c["H"], 4).tolist() for c in case["cells"]]
     for k in ("nnn", "rc"):
         if k in case:
             out[k] = case[k]
@@ -581,6 +625,8 @@ def syn_files_st(draw):
                     rows[pid] = [fmt % x for x in w]
             frames.append({"header": hdr, "order": order, "rows": rows})
         files.append({"kind": kind, "N": N, "frames": frames, "style": style})
+    if mode == "pair" and draw(st.booleans()):
+        files.reverse()  # weight file written, opened and indexed first
     return {"src": "syn", "mode": mode, "files": files}
 
 
@@ -609,7 +655,7 @@ class ReaderMachine(RecordingMachine):
         self.files = []
         if case["src"] == "lib":
             conf = case["conf"]
-            call_writer(conf, snapshots_from(conf))
+            call_writer(conf, make_snapshots(conf))
             N = len(conf["types"])
             frames, _ = parse_written(FN, N, len(conf["pos"]), "machine-" + conf["w"])
             with open(FN, "r", encoding="utf-8") as f:
@@ -630,7 +676,7 @@ class ReaderMachine(RecordingMachine):
                 if any(len(e) == 0 for fr in fd["frames"] for e in fr["rows"].values()):
                     self.tag("cn0-rows")
             if case["mode"] == "pair":
-                self.tag("two-files")
+                self.tag("two-files-neigh-opened-first" if self.files[0]["neighbor"] else "two-files-weight-opened-first")
         for fo in self.files:
             fo["offs"] = neigh.frame_offsets(fo["text"], fo["N"])
             fo["F"] = len(fo["frames"])
@@ -641,7 +687,7 @@ class ReaderMachine(RecordingMachine):
         self.last = None
 
     def teardown(self):
-        if not any(name == "read" for name, _ in self.log):
+        if not any(name in ("read", "alternate") for name, _ in self.log):
             self._failed = True  # run cut short by Hypothesis before any read: not an evaluated history
         for fo in self.files:
             try:
@@ -679,7 +725,29 @@ class ReaderMachine(RecordingMachine):
 
     def do_read(self, which, u, kw):
         cands = self._readable()
-        fo = cands[which % len(cands)]
+        return self._read_file(cands[which % len(cands)], u, kw)
+
+    def _pairable(self):
+        return (len(self.files) == 2 and self.files[0]["ptr"] == self.files[1]["ptr"] < self.files[0]["F"])
+
+    @precondition(lambda self: self._pairable())
+    @rule(first=st.integers(0, 1), u=st.integers(0, 10 ** 6))
+    def r_alternate(self, first, u):
+        self.step("alternate", first=first, u=u)
+        self.do_alternate(first=first, u=u)
+
+    def do_alternate(self, first, u):
+        """The way static.boo consumes a neighbour file and a weight file of the same shape: the same frame of both,
+        one after the other (either first), with the same Nmax; the two tables must have the same shape and cn column."""
+        a, b = self.files[first], self.files[1 - first]
+        ga = self._read_file(a, u, False)
+        gb = self._read_file(b, u, False)
+        require(np.shape(ga) == np.shape(gb), f"alternate read: shapes {np.shape(ga)} and {np.shape(gb)} differ for the "
+                f"same (id, cn) structure and the same Nmax")
+        require(np.array_equal(np.asarray(ga)[:, 0], np.asarray(gb)[:, 0]), "alternate read: cn columns differ")
+        self.tag("alternate-" + ("neigh" if a["neighbor"] else "weight") + "-first")
+
+    def _read_file(self, fo, u, kw):
         rows = fo["frames"][fo["ptr"]]
         cns = [len(e) for e in rows.values()]
         maxcn = max(cns)
@@ -705,7 +773,10 @@ class ReaderMachine(RecordingMachine):
         self.tag("weight-read" if not fo["neighbor"] else "neighbor-read")
         if fo["ptr"] >= 2:
             self.tag("frame>=2-read")
+        if maxcn == 0:
+            self.tag("all-empty-frame-read")
         self.info["nontrivial"] = all(self.flags.values())
+        return got
 
     @precondition(lambda self: bool(self._reopenable()))
     @rule(which=st.integers(0, 1))
@@ -780,6 +851,10 @@ FACETS = [
                "differ within a frame"),
     Facet("cutoff_type", writer_case_st("type"), check_writer, quick=600, thorough=60000, describe=describe_writer,
           shards_quick=4, rule="cutoffneighbors_particletype, K 1..3, independent matrix entries; non-trivial as cutoff"),
+    Facet("sheared", writer_case_st("any", nmax=24, frames=(2, 4), sheared=True), check_writer, quick=300, thorough=30000,
+          describe=describe_writer, shards_quick=2,
+          rule="all three writers on multi-frame triclinic trajectories whose tilt factors differ per frame (same edge "
+               "lengths): every frame is compared with the reference for ITS cell matrix; non-trivial as the writer's facet"),
     Facet("crisp", crisp_st(), check_crisp, quick=600, thorough=40000, describe=describe_crisp, shards_quick=2,
           rule="integer coordinates, power-of-two cells (dyadic tilts), integer cut-offs with planted pairs at distance "
                "r, r+1, r-1; exact oracle; non-trivial = a pair exactly on the boundary / an exact tie (N-nearest)"),
